@@ -414,8 +414,9 @@ func (e *eng) settleEager() string {
 		var p string
 		select {
 		case p = <-next.report:
-		case <-time.After(5 * time.Second):
+		case <-time.After(stuckTimeout):
 			next.eager = false
+			e.poisoned = true
 			return suffix + fmt.Sprintf(" +%s:STUCK(lock is free but the forced actor does not proceed)", next.name)
 		}
 		e.mu.Lock()
@@ -524,6 +525,10 @@ func (e *eng) Op(f []string, line string, out *hx.Out) {
 		e.mu.Unlock()
 		out.P("%s %s%s", tag, e.obs(), bad)
 	case "force":
+		if e.poisoned {
+			out.P("X not executed: an actor is stuck in this case")
+			return
+		}
 		// release an actor into a lock that is currently held (it blocks inside the implementation); at most
 		// one forced waiter per lock so that the wake-up order is determined
 		e.mu.Lock()
@@ -542,7 +547,13 @@ func (e *eng) Op(f []string, line string, out *hx.Out) {
 			return
 		}
 		a.eager = true
-		a.resume <- struct{}{}
+		select {
+		case a.resume <- struct{}{}:
+		case <-time.After(stuckTimeout):
+			e.poisoned = true
+			out.P("X stuck %s is not waiting at its hook point %s", a.name, a.point)
+			return
+		}
 		time.Sleep(2 * time.Millisecond) // let it run into the lock (not needed for correctness)
 		out.P("%s forced:%s %s", tag, a.name, e.obs())
 	case "step":
@@ -565,12 +576,18 @@ func (e *eng) Op(f []string, line string, out *hx.Out) {
 			a.started = true
 			go e.run(a)
 		} else {
-			a.resume <- struct{}{}
+			select {
+			case a.resume <- struct{}{}:
+			case <-time.After(stuckTimeout):
+				e.poisoned = true
+				out.P("X stuck %s is not waiting at its hook point %s", a.name, a.point)
+				return
+			}
 		}
 		var p string
 		select {
 		case p = <-a.report:
-		case <-time.After(5 * time.Second):
+		case <-time.After(stuckTimeout):
 			out.P("X stuck %s after %s (blocked although its next step was enabled: deadlock or unexpected wait)", a.name, a.point)
 			e.poisoned = true
 			return
@@ -596,3 +613,8 @@ func (e *eng) Op(f []string, line string, out *hx.Out) {
 }
 
 func main() { hx.Main(&eng{}) }
+
+// stuckTimeout: how long the scheduler waits for an actor whose step is enabled to reach its next hook
+// point. Generous, because a false "stuck" on a heavily loaded machine would be a false alarm; a truly
+// stuck actor costs this once per case (the rest of the case is skipped).
+const stuckTimeout = 30 * time.Second
